@@ -34,7 +34,7 @@ def rand_atom(rng, modelled=False):
         return rng.random() < 0.5
     if r < 0.65:
         return rng.choice([0, 1, 2, 3, 7])
-    return rng.choice(['', 'u', 'vw', 'A b', 'q<r', 'inc'])
+    return rng.choice(['', 'u', 'vw', 'A b', 'q<r', 'inc', ' w '])
 
 
 def rand_data(rng, modelled=False, fail_bias=0.0):
